@@ -314,3 +314,11 @@ Definition sweep_abort_then_setup (sp : N) (x : N) : list N :=
   let b := N.land x 255 in
   let pk := match N.shiftr x 8 with 0 => [225; b] | 1 => [45; b] | 2 => [b] | _ => [105; b; b] end in
   c6_idle 1 0 sp ++ c6_pkt pk 0 sp ++ c6_idle 2 0 sp ++ setup_txn ref_setup 0 sp.
+
+(* a SETUP token whose data stage is cut off before the CRC field.  sweep index x (6 bits): PID nibble p = x mod 16
+   (byte p + 16 * (15 - p): all 16 PIDs, data and non-data); bit 4: straight after reset / after a complete valid
+   SETUP transaction (stale CRC registers equal); bit 5: nothing / one zero byte after the PID.  Never a request. *)
+Definition sweep_setup_runt (sp : N) (x : N) : list N :=
+  let p := N.land x 15 in
+  let pk := (p + 16 * (15 - p)) :: (if N.testbit x 5 then [0] else []) in
+  (if N.testbit x 4 then setup_txn ref_setup 0 sp else []) ++ setup_txn_bytes pk sp.
